@@ -53,6 +53,41 @@ theorem compound_normalised_simple (s s' : SimpleSt ℝ) (hlen : s.thetas.length
     (hth : ∀ t ∈ s.thetas, 0 ≤ t ∧ t ≤ 1) (h : s.rebuild = .ok s') : Normalised s'.dd.dist :=
   simple_rebuild_normalised s s' hlen hth h
 
+/-- **constant_class_is_value**: the one class of a constant distribution is its `value` parameter
+with probability one — after construction and after every parameter update, restriction (which
+must not re-discretise it generically) and median toggle, accepted or refused -/
+theorem constant_class_is_value (v : ℝ) :
+    (ConstSt.make v).dd.dist = [((ConstSt.make v).value, 1)] ∧
+    ∀ c : ConstSt ℝ, c.dd.dist = [(c.value, 1)] →
+      (∀ name w c', c.setP name w = .ok c' → c'.dd.dist = [(c'.value, 1)]) ∧
+      (∀ i, (c.restrict i).1.dd.dist = [((c.restrict i).1.value, 1)]) ∧
+      (∀ b, (c.setMed b).dd.dist = [((c.setMed b).value, 1)]) := by
+  refine ⟨by simp [ConstSt.make], ?_⟩
+  intro c hc
+  refine ⟨?_, ?_, fun b => hc⟩
+  · intro name w c' h
+    unfold ConstSt.setP at h
+    split at h
+    · simp at h
+    · split at h
+      · simp at h
+      · injection h with h; subst h; simp
+  · intro i
+    unfold ConstSt.restrict
+    split
+    · exact hc
+    · split
+      · exact hc
+      · rename_i d changed _
+        simp only
+        cases changed <;> simp only [Bool.false_eq_true, if_false, if_true] <;> split <;> exact hc
+
+/-- **simple_restrict_keeps_classes**: a restriction of a user-specified distribution — accepted or
+refused — leaves its classes (values and probabilities) and its parameters as they are -/
+theorem simple_restrict_keeps_classes (s : SimpleSt ℝ) (c : Interval ℝ) :
+    (s.restrict c).1.dd.dist = s.dd.dist ∧ (s.restrict c).1.vs = s.vs ∧ (s.restrict c).1.thetas = s.thetas :=
+  simple_restrict_same s c
+
 /-- **compound_normalised_simple_history**: a user-specified distribution built by its constructor
 (at least one value) satisfies, after *every* history of parameter updates (accepted or refused),
 restrictions, median toggles and re-discretisations: one theta less than values, every theta in
